@@ -128,6 +128,44 @@ def estimator_records(rng, n):
     return recs
 
 
+def driver_tree(chk: Check):
+    """spec/DriverTree.tla (the shape of prop_data along a driver run: beyond the listed properties) against the real
+    driver: for every (n_eql, ad_mode) the run completes or raises in exactly the block the specification predicts.
+    A mismatch is a specification divergence, not a violation of C12."""
+    grid = [(ne, ad) for ne in (0, 1) for ad in ("none", "forward", "reverse")]
+    pred = {}
+    for ne, ad in grid:
+        cfg = (f'SPECIFICATION Spec\nCONSTANTS\n  NEql = {ne}\n  NBlocks = 3\n  AdMode = "{ad}"\nINVARIANT PredictionRight\n'
+               'PROPERTY Terminates\n')
+        r = chk.tlc("DriverTree", cfg, workers=1, name=f"DriverTree-{ne}-{ad}", timeout=120)
+        if r.violated:
+            raise MachineryError(f"DriverTree.tla: its closed-form prediction is wrong for n_eql={ne}, {ad}")
+        r2 = chk.tlc("DriverTree", cfg.replace("INVARIANT PredictionRight", "INVARIANT StructuresAgree"), workers=1,
+                     name=f"DriverTree-agree-{ne}-{ad}", timeout=120, expect_violation=True, count=False)
+        pred[(ne, ad)] = 2 if r2.violated else 0
+    out = {}
+    for ne, ad in grid:
+        sysd = runlevel.make_system(np.random.default_rng(1200 + chk.seed), norb=4, nelec=(2, 1), nchol=2, trial_kind="uhf", walker_type="uhf",
+                                    n_walkers=4, dt=0.02, vscale=0.3)
+        opts = runlevel.default_options(seed=5 + chk.seed, n_eql=ne, ad_mode=None if ad == "none" else ad)
+        proxies.reset()
+        try:
+            runlevel.run_driver(chk, sysd, opts, (1, 1, 1), 3, name=f"tree-{ne}-{ad}")
+            got = 0
+        except TypeError as ex:
+            got = sum(1 for e in proxies.snapshot() if e["ev"] == "Enter") + (1 if "tree structure" in str(ex) else 0)
+        except Exception as ex:  # noqa: BLE001
+            got = -1
+        out[f"n_eql={ne},{ad}"] = {"spec": pred[(ne, ad)], "driver": got}
+        chk.case(("driver-tree", ne, ad))
+        chk.traces += 1
+        if got != pred[(ne, ad)]:
+            chk.divergence(f"driver.afqmc:prop_data-structure:n_eql={ne}:{ad}", f"DriverTree.tla predicts "
+                           f"{'completion' if pred[(ne, ad)] == 0 else 'a tree-structure TypeError in sampling block ' + str(pred[(ne, ad)])}, the driver "
+                           f"{'completed' if got == 0 else 'raised in sampling block ' + str(got)}")
+    chk.note("driver_tree_structure (0 = completes, k = raises in sampling block k)", out)
+
+
 def run(chk: Check):
     repo_setup()
     import jax.numpy as jnp
@@ -145,6 +183,7 @@ def run(chk: Check):
                         "required to be callable and finite", "*_nosr entry points are compared with the plain sampler at "
                         "n_sr_blocks = 1 (without reconfiguration n_sr_blocks has no meaning)"]
     design(chk)
+    driver_tree(chk)
     rng = np.random.default_rng(5200 + chk.seed)
     S = proxies.sampler_proxy()
     systems = {}
